@@ -324,10 +324,19 @@ def mddEngine (c i : List String) : Option Res := do
         if allImpacted fam && req.ctype != 0 then
           let bad := (io.expanded.zipIdx).any (fun (n, idx) => n > req.width && (req.ctype == 2 || idx ≥ 2))
           if bad then f := "C13:a layer has more than max_width states expanded" :: f
+      | ["qpanic"] =>
+        -- the compilation ended normally but best_solution / best_exact_solution / drain_cutset panicked
+        f := [(if req.ctype == 1 then "C06" else "C07") ++ ":a query on a normally compiled diagram panics (best_solution / best_exact_solution / drain_cutset)",
+              "C08:a query on a normally compiled diagram panics (best_solution / best_exact_solution / drain_cutset)",
+              "C01:a query on a normally compiled diagram panics", "C03:a query on a normally compiled diagram panics"] ++ f
       | _ => pure ()
       -- C12
       let (okP, why) := phiProtocol fam root.depth io.log
       if !okP then f := ("C12:" ++ why) :: f
+      -- C10, sentence 1 at diagram level: with an admissible rule (fresh store) the value clauses of C06 - C08 still hold
+      if fam.domRule.isSome then
+        f := f ++ (f.filter (fun s => s.startsWith "C06:relaxed" || s.startsWith "C07:exact" || s.startsWith "C07:restricted" || s.startsWith "C08:(iv)")).map
+          (fun s => "C10:with the dominance rule enabled: " ++ s)
       return f
     let note := if fails.isEmpty then "" else join (fails.map (fun s => "F:" ++ (s.splitOn ":").head! ++ " [" ++ s ++ "]"))
     let ms := match oc with
